@@ -177,10 +177,14 @@ impl FmtAttribute {
 
         let expr = match param.arg {
             // (3) And either exactly one positional argument is specified.
-            Some(parsing::Argument::Integer(_)) | None => (self.args.len() == 1)
+            Some(parsing::Argument::Integer(0)) | None => (self.args.len() == 1)
                 .then(|| self.args.first())
                 .flatten()
                 .map(|a| a.expr.clone()),
+
+            // An index other than `0` cannot denote the only argument: leave it to `format_args!()`
+            // to report the invalid reference.
+            Some(parsing::Argument::Integer(_)) => None,
 
             // (4) Or the formatting parameter's name refers to some outer binding.
             Some(parsing::Argument::Identifier(name)) if self.args.is_empty() => {
